@@ -16,7 +16,7 @@ func init() {
 			"allocator.DistributedAllocator.saveAllocation", "allocator.DistributedAllocator.deleteAllocation",
 			"allocator.DistributedAllocator.allocationKey", "allocator.DistributedAllocator.keyPrefix",
 			"allocator.DistributedAllocator.Allocate", "allocator.DistributedAllocator.Release",
-			"allocator.DistributedAllocator.handleRemoteChange", "allocator.DistributedAllocator.loadAllocations", "allocator.DistributedAllocator.cleanupExpiredFromStore",
+			"allocator.DistributedAllocator.handleRemoteChange", "allocator.DistributedAllocator.loadAllocations", "allocator.DistributedAllocator.cleanupExpiredFromStore", "allocator.DistributedAllocator.Renew", "allocator.DistributedAllocator.getAllocation",
 		},
 		Trusted: []string{
 			"iface allocator.Store.Put/Delete/Get/Query: fail nondeterministically; a call that returns an error had no effect on the store; ghost storePuts/storeDeletes/lastPutDoc record the effects that reached the store",
